@@ -853,6 +853,7 @@ def run_hybrid(W, name, ops, seed, scribble=False):
     outs = []
     stream = Stream(seed, record=True)
     sweeps, mh_bad, mh_checked = [], [], [0, 0]
+    joint_fp = deep_fp(W.joint)          # the user's joint distribution: HybridGibbs works on its own copy
     with stream, quiet():
         h = W.make_hybrid(name)
         names = h.par_names
@@ -927,7 +928,9 @@ def run_hybrid(W, name, ops, seed, scribble=False):
     G = h.get_samples()
     gs_ok = all(np.asarray(G[n].samples).shape[-1] == ns for n in names) and joint_cols(G, names) == smp
     return {"smp": smp, "gs_ok": gs_ok, "handout": led.bad, "outs_now": [joint_cols(R, names) for R in outs],
-            "sweeps": sweeps, "mh_bad": mh_bad[0] if mh_bad else None, "mh_checked": tuple(mh_checked),
+            "sweeps": sweeps, "mh_bad": (mh_bad[0] if mh_bad else None) or
+            ("the joint distribution handed to HybridGibbs was modified by the run (deep comparison)" if deep_fp(W.joint) != joint_fp else None),
+            "mh_checked": tuple(mh_checked),
             "steps": dict(h.num_sampling_steps)}
 
 
